@@ -694,3 +694,41 @@ mod sync_facade {
         c.store.item_size()
     }
 }
+
+#[cfg(all(feature = "sync", feature = "async"))]
+pub use self::async_facade::*;
+
+#[cfg(all(feature = "sync", feature = "async"))]
+mod async_facade {
+    use super::*;
+    use crate::{AsyncCache, CacheCallback, Coster, KeyBuilder, UpdateValidator};
+    use std::hash::{BuildHasher, Hash};
+
+    /// Everything observable about an `AsyncCache` at one instant (same shape as for `Cache`).
+    pub fn async_cache_snapshot<K, V, KH, C, U, CB, S, F>(
+        c: &AsyncCache<K, V, KH, C, U, CB, S>,
+        val_id: F,
+    ) -> CacheSnap
+    where
+        K: Hash + Eq,
+        V: Send + Sync + 'static,
+        KH: KeyBuilder<Key = K>,
+        C: Coster<Value = V>,
+        U: UpdateValidator<Value = V>,
+        CB: CacheCallback<Value = V>,
+        S: BuildHasher + Clone + 'static + Send + Sync,
+        F: Fn(&V) -> u64,
+    {
+        CacheSnap {
+            store: c.store.verif_snapshot(val_id),
+            policy: c.policy.inner.lock().verif_snapshot(),
+            ring: c.get_buf.verif_data(),
+            insert_buf_len: c.insert_buf_tx.len(),
+            policy_queue_len: c.policy.items_tx.len(),
+            closed: c.is_closed.load(Ordering::SeqCst),
+            policy_closed: c.policy.is_closed.load(Ordering::SeqCst),
+            metrics: metrics_totals(&c.metrics),
+            life: c.metrics.verif_life(),
+        }
+    }
+}
